@@ -70,7 +70,7 @@ m = {
  ],
  "checks": checks,
  "not_applicable": na,
- "notes": "All checks rebuild the harness against /repo's working tree (bin/build.sh). Known genuine defects are listed in known_findings.json (open: printed as KNOWN-FINDING; fixed: one /repo commit each, 21 so far). The hook commits are listed in hooks.source_commits; in addition the repair d93d255 adapts one line of the hook file server/rescache/verif_on.go (the extra cache workers of the harness take the new stop channel). bin/regress.sh replays pinned schedules of open and repaired findings as plain go tests; bin/racepass.sh is a free-running -race diagnostic (not a check); seeded/ and mutants/ hold the deliberate property-breaking changes the checks were tried against (bin/all_seeds.sh, bin/demo-mutants.sh).",
+ "notes": "All checks rebuild the harness against /repo's working tree (bin/build.sh). Known genuine defects are listed in known_findings.json (open: printed as KNOWN-FINDING; fixed: one /repo commit each). The hook commits are listed in hooks.source_commits; in addition the repair d93d255 adapts one line of the hook file server/rescache/verif_on.go (the extra cache workers of the harness take the new stop channel). bin/regress.sh replays pinned schedules of open and repaired findings as plain go tests; bin/racepass.sh is a free-running -race diagnostic (not a check); seeded/ and mutants/ hold the deliberate property-breaking changes the checks were tried against (bin/all_seeds.sh, bin/demo-mutants.sh).",
 }
 json.dump(m, open(os.path.join(ROOT, "MANIFEST.json"), "w"), indent=1)
 print("checks:", len(checks), "not_applicable:", len(na))
